@@ -1,6 +1,6 @@
 """Token-walker coverage (templates T1+T2+T3): used by C18 (clear_comments / filter_comments /
 clear_whitespaces), C04 (shift_token_line) and C12 (replace_referenced_tokens)."""
-from . import coverage, typegraph
+from . import coverage, typegraph, thir
 from .thir import callee_of
 
 WALKERS = {
@@ -78,3 +78,65 @@ def sibling_callbacks(R, ctx, rid, names):
         for cb in sorted(union):
             R.ob(rid, "%s|%s" % (WALKERS[W], cb), cb in sets[W], "",
                  "callback %s is overridden by %s but not by %s" % (cb, [w for w in names if cb in sets[w]], WALKERS[W]))
+
+
+DOUBLE_EXEMPT = {
+    ("nodes::attributes::AttributeArguments", "String.0"): "attribute group arguments cannot be produced from source text (full_moon 2.2 has no `@[..]` syntax); the double route exists only for hand-built trees",
+    ("nodes::attributes::AttributeArguments", "Table.0"): "same as String.0",
+}
+
+
+def double_application(R, ctx, rid, W):
+    """For a non-idempotent walker: no node may receive W twice in one traversal, i.e. no slot is both
+    (a) the receiver of a direct `U::W` call made by a parent's W / a parent's callback and (b) handed by the
+    visitor to visit_U, whose process_U callback applies U::W again."""
+    from . import visitors
+    lib = ctx.lib
+    proc = WALKERS[W]
+    R.rule(rid, "`%s` is not idempotent: each token must be reached through exactly one route. A slot whose value receives `U::%s` directly from its "
+                "parent must not also be handed by DefaultVisitor to visit_U when %s's process_U callback applies `U::%s` itself" % (W, W, proc.split("::")[-1], W))
+    fam = ctx.family(coverage.NODE_VISITOR, "process::visitors::DefaultVisitor", proc)
+    suffix = "::" + W
+    # kinds whose callback applies W to its own parameter
+    cb_types = set()
+    for ti, impl in fam.proc_over.items():
+        fn = lib.fns[impl]
+        fa = ctx.an.fa(impl)
+        for c in thir.calls(fn):
+            cal = callee_of(c) or ""
+            if c.get("fname") == W and cal.endswith(suffix) and c["args"] and ("#param", 1) in fa.origins(c["args"][0]):
+                o = {x for x in fa.origins(c["args"][0]) if x[0] != "#param"}
+                if not o:
+                    cb_types.add(cal[: -len(suffix)])
+    R.require(rid, "floor:callback-kinds", len(cb_types) >= 20, "", "%d node kinds get %s from their own callback" % (len(cb_types), W))
+    # direct applications through a field of the parent
+    direct = {}
+    for p in fam.scope:
+        fa = ctx.an.fa(p)
+        if fa is None:
+            continue
+        for c in thir.calls(lib.fns[p]):
+            cal = callee_of(c) or ""
+            if c.get("fname") == W and cal.endswith(suffix) and cal in lib.fns and c["args"]:
+                U = cal[: -len(suffix)]
+                for o in fa.origins(c["args"][0]):
+                    if o[0] != "#param":
+                        direct.setdefault(o, []).append((U, p, c.get("ln")))
+    vt = visitors.visitable_types(lib, coverage.NODE_VISITOR)
+    _, touched_v = visitors.visitor_touched(ctx, coverage.NODE_VISITOR, "process::visitors::DefaultVisitor")
+    n = 0
+    for slot, lst in sorted(direct.items()):
+        if slot in DOUBLE_EXEMPT:
+            R.ob(rid, "exempt|%s.%s" % slot, True, ctx.adt_where(slot[0]), DOUBLE_EXEMPT[slot], nontrivial=False)
+            continue
+        visited_kinds = {vt.get((h[1] or "").split("::")[-1]) for h in touched_v.get(slot, [])}
+        # only the slot's own value type matters: the last step of the receiver path
+        for U, p, ln in lst:
+            slot_types = [q for name, ty, inner in ctx.tg.slots.get(slot[0], []) if name == slot[1] for q in inner]
+            if U not in slot_types:
+                continue
+            n += 1
+            dbl = U in cb_types and U in visited_kinds
+            R.ob(rid, "%s|%s.%s" % (W, slot[0], slot[1]), not dbl, ctx.where(lib.fns[p], ln),
+                 ("`%s` receives %s directly here AND again from process callback after visit_%s: its tokens are shifted twice" % (U.split("::")[-1], W, U.split("::")[-1])) if dbl else "single route")
+    R.require(rid, "floor:direct-sites", n >= 30, "", "%d direct applications through a field (floor 30)" % n)
